@@ -312,7 +312,7 @@ def main():
         return 0
     if len(sys.argv) >= 5 and sys.argv[1] == "--worker":
         return worker(int(sys.argv[2]), int(sys.argv[3]), sys.argv[4])
-    total = int((6000 if TIER == "quick" else 200000) * SCALE)
+    total = int((24000 if TIER == "quick" else 400000) * SCALE)
     nproc = min(16, os.cpu_count() or 4)
     per = max(1, total // nproc)
     procs = []
